@@ -17,6 +17,7 @@ from mc import core, sched, sim, wire as W
 
 ID = "C09"
 LEVEL = "model_checking"
+ISOLATE_SHARDS = True        # every shard runs in a forked child of a pristine worker (mc/core.py)
 RULE = ("every schedule of the harness threads with <= bound preemptions, scheduling points at every library lock operation, "
         "request boundary and source line of the watched request-path functions; non-trivial = distinct complete schedules "
         "(choice sequences) containing >= 1 context switch while both threads were inside a request")
@@ -647,3 +648,9 @@ def replay(case):
     r = Runner(case["program"], prog, case["seam"], case["gran"])
     r.run_one(list(case["schedule"]))
     return [m for k, c, m in r.violations]
+
+
+def preload():
+    """import the code under test once in the (pristine) worker; shard children are forked from it"""
+    from mc import sim as _sim
+    _sim.mods()
